@@ -447,8 +447,9 @@ func c06Shrink(c *core.Ctx, cs *c06Case) *c06Case {
 // that is actually present in a page.
 func c06Files(c *core.Ctx) {
 	type row struct {
-		A *int64 `parquet:"a,optional"`
-		B string `parquet:"b"`
+		A *int64   `parquet:"a,optional"`
+		B string   `parquet:"b"`
+		U [16]byte `parquet:"u,uuid"`
 	}
 	nFiles := c.N(40, 600)
 	for f := 0; f < nFiles; f++ {
@@ -465,12 +466,18 @@ func c06Files(c *core.Ctx) {
 				} else {
 					v = int64(c.Rng.Intn(100)) - 50
 				}
-				s := fmt.Sprintf("%s%04d", strings.Repeat("\xff", c.Rng.Intn(3)), v+100)
+				// long 0xFF prefixes (the truncated maximum cannot be incremented) and
+				// 16-byte values that share their high half and differ in the top bit
+				// of the low half (unsigned order of both halves)
+				s := fmt.Sprintf("%s%04d", strings.Repeat("\xff", c.Rng.Intn(8)), v+100)
+				var u [16]byte
+				u[7] = byte(f % 2)
+				binary.BigEndian.PutUint64(u[8:], uint64(v+100)<<54|uint64(c.Rng.Intn(4)))
 				if null {
-					rows = append(rows, row{B: s})
+					rows = append(rows, row{B: s, U: u})
 				} else {
 					x := v
-					rows = append(rows, row{A: &x, B: s})
+					rows = append(rows, row{A: &x, B: s, U: u})
 				}
 			}
 		}
